@@ -275,6 +275,38 @@ func progTraps(r *rand.Rand, n int) *prog {
 	return p
 }
 
+// minimalDebugInfo: a custom section `.debug_info` holding one empty DWARF v4 compilation unit (unit_length 7, version 4,
+// abbrev offset 0, address size 4): enough for the runtime to treat the module as one WITH debug information (per-operation
+// source offsets are recorded, stack traces are symbolised) - a dimension of its own next to WithDebugInfoEnabled.
+func withMinimalDebugInfo(p *prog) *prog {
+	q := *p
+	q.Name += "+dwarf"
+	name := ".debug_info"
+	payload := []byte{0x07, 0x00, 0x00, 0x00, 0x04, 0x00, 0x00, 0x00, 0x00, 0x00, 0x04}
+	sec := append([]byte{byte(len(name))}, name...)
+	sec = append(sec, payload...)
+	q.Bin = append(append(append([]byte{}, p.Bin...), 0, byte(len(sec))), sec...)
+	return &q
+}
+
+// progLoopsThenFail: functions that END in a failure after several loops (a trap in the function itself, in a callee,
+// a stack overflow further down): whatever a back end inserts at loop headers (exit-code checks, when close-on-
+// context-done is on) shifts its own bookkeeping of the following operations; the failure at the very end of the body
+// is where an off-by-k of such bookkeeping falls off the table.
+func progLoopsThenFail(n int) *prog {
+	m := wb.New()
+	loop := wb.Op(wasm.OpcodeLoop, 0x40, wasm.OpcodeEnd)
+	boom := m.AddFunc(wb.Func{Body: wb.Op(wasm.OpcodeUnreachable)})
+	m.AddFunc(wb.Func{Export: "loops_then_trap", Body: wb.Cat(loop, loop, loop, wb.Op(wasm.OpcodeUnreachable))})
+	m.AddFunc(wb.Func{Export: "loops_then_call_trap", Body: wb.Cat(loop, loop, wb.Call(boom))})
+	m.AddFunc(wb.Func{Params: []byte{wb.I32, wb.I32}, Results: []byte{wb.I32}, Export: "loops_then_div", Body: wb.Cat(loop, loop, loop, loop, wb.LocalGet(0), wb.LocalGet(1), wb.Op(wasm.OpcodeI32DivU))})
+	m.AddFunc(wb.Func{Export: "loops_then_overflow", Body: wb.Cat(loop, loop, wb.Call(4))})
+	p := &prog{Kind: "loopsfail", Name: fmt.Sprintf("loopsfail%d", n), Limit: 4, NFuncs: 5}
+	p.Calls = []call{{"loops_then_trap", nil}, {"loops_then_call_trap", nil}, {"loops_then_div", []uint64{7, 0}}, {"loops_then_div", []uint64{9, 3}}, {"loops_then_overflow", nil}, {"loops_then_trap", nil}}
+	p.Bin = m.Bytes()
+	return p
+}
+
 func progRec(r *rand.Rand, n int, unbounded bool) *prog {
 	m := wb.New()
 	// fib(n)
@@ -409,5 +441,7 @@ func programs(r *rand.Rand, thorough bool) []*prog {
 	}
 	ps = append(ps, progMem(r, 90, 12, 1, u32p(40)), progMem(r, 91, 12, 2, nil))
 	ps = append(ps, progDwarf())
+	lf := progLoopsThenFail(0)
+	ps = append(ps, lf, withMinimalDebugInfo(lf), withMinimalDebugInfo(progTraps(r, 7)), withMinimalDebugInfo(progTail(r, 7)), withMinimalDebugInfo(progRec(r, 7, true)))
 	return ps
 }
